@@ -168,7 +168,8 @@ def gen_history(rng: random.Random, world, length=None, ops=None):
         op = rng.choice(ops)
         p = {}
         if op == "em":
-            p = {"rule": rng.choice(["l.d = r.d", "l.a = r.a", "l.c = r.c"]), "fix_u": rng.random() < 0.5}
+            # populate_prior: the non-default option that takes the model prior from the median over ALL registered sessions
+            p = {"rule": rng.choice(["l.d = r.d", "l.a = r.a", "l.c = r.c"]), "fix_u": rng.random() < 0.5, "populate_prior": rng.random() < 0.35}
         elif op == "estimate_prior":
             p = {"rules": rng.choice([["l.a = r.a and l.b = r.b"], ["l.a = r.a and l.c = r.c", "l.b = r.b and l.d = r.d"]]), "recall": rng.choice([1.0, 0.8])}
         elif op == "predict_thr":
@@ -206,7 +207,8 @@ def apply_op(linker, world, step, state):
         linker.training.estimate_m_from_label_column("lab")
         return None
     if op == "em":
-        linker.training.estimate_parameters_using_expectation_maximisation(p["rule"], fix_u_probabilities=p["fix_u"])
+        linker.training.estimate_parameters_using_expectation_maximisation(
+            p["rule"], fix_u_probabilities=p["fix_u"], populate_probability_two_random_records_match_from_trained_values=bool(p.get("populate_prior", False)))
         return None
     if op == "estimate_prior":
         linker.training.estimate_probability_two_random_records_match(p["rules"], recall=p["recall"])
